@@ -554,6 +554,7 @@ func (g *rGen) next(w *rWorld, i int) string {
 }
 
 func runRoutingFocus(t *testing.T, focus string) {
+	routingFocus = focus
 	e := NewEnv(t, "routing")
 	defer e.Close(t)
 	report := func(vs []map[string]any) {
